@@ -14,9 +14,10 @@ use serde::{Deserialize, Serialize};
 use serde_json::Value;
 use std::collections::BTreeMap;
 use std::net::IpAddr;
+use std::sync::Arc;
 
 pub const RULE: &str = "fib-histories: cases = 1..20 steps over a 3-shard TableManager with an observed KernelHandle, 3 eBGP peers, 10 prefixes (IPv4 and IPv6), 2 path ids, 6 attribute variants (ties and non-ties before the router-id step), 4 shared next hops: \
-insert_route (new / replace with another next hop / replace with other attributes), remove_route, peer loss, graceful-restart stale marking and stale purge, soft_reset_in after an import-policy change (filtering and un-filtering paths), next-hop reachability reports, locally originated (API) and redistributed kernel paths inserted and removed with the same next hops (they are selected and installed like any other path but hold no registration), \
+insert_route (new / replace with another next hop / replace with other attributes), remove_route, peer loss, graceful-restart stale marking and stale purge, soft_reset_in after an import-policy change (filtering and un-filtering paths), next-hop reachability reports, locally originated (API) and redistributed kernel paths inserted and removed with the same next hops (they are selected and installed like any other path but hold no registration), in a third of the cases a per-session prefix limit of 1..3 (an insert refused for the limit stores nothing, registers nothing and ends the session), \
 and reachability reports scheduled inside an insert (between its read of the unreachable set and its shard lock). \
 Oracle after every step: (1) replaying all FIB requests so far gives, per prefix, exactly the next-hop set of the RIB's current best path and the paths tied with it before the router-id step (none if there is no eligible path); \
 (2) registrations minus unregistrations per address == number of peer-learned paths in the RIB whose next hop is that address, never negative; (3) no selected path has a next hop currently reported unreachable. \
@@ -25,6 +26,9 @@ non-trivial := at least one FIB request with >= 2 next hops, or a reachability r
 #[derive(Clone, Debug, Serialize, Deserialize)]
 pub struct Case {
     pub steps: Vec<Step>,
+    /// per-session prefix limit (each peer's session has a counter of its own, as PeerSession creates it)
+    #[serde(default)]
+    pub limit: Option<u8>,
 }
 
 #[derive(Default)]
@@ -125,8 +129,17 @@ fn check_with(c: &Case, vrfs: bool) -> CheckResult {
     let mut m = Model::default();
     let mut info = CaseInfo::trivial();
     let mut kinds: Vec<&'static str> = Vec::new();
+    if let Some(max) = c.limit {
+        *rig.limits.borrow_mut() = Some((max.max(1) as u32, (0..3).map(|_| Arc::new(std::sync::atomic::AtomicU64::new(0))).collect()));
+    }
     for (i, st) in c.steps.iter().enumerate() {
+        rig.exceeded.set(None);
         let fired = rig.step(st);
+        if let Some(p) = rig.exceeded.get() {
+            // the insert was refused for the session's prefix limit: the daemon sends Cease and the session ends
+            rig.apply(&TmOp::DropPeer { peer: p });
+            info.classes.push("limit-refused-insert");
+        }
         if !kinds.contains(&op_kind(&st.op)) {
             kinds.push(op_kind(&st.op));
         }
@@ -238,7 +251,15 @@ pub fn arb_case(max: usize) -> impl Strategy<Value = Case> {
                 *prefix = base + (*prefix % 3);
             }
         }
-        Case { steps }
+        Case { steps, limit: None }
+    })
+}
+
+/// `arb_case` with a per-session prefix limit in a third of the cases
+pub fn arb_case_limits(max: usize) -> impl Strategy<Value = Case> {
+    (arb_case(max), prop_oneof![2 => Just(None), 1 => (1u8..4).prop_map(Some)]).prop_map(|(mut c, limit)| {
+        c.limit = limit;
+        c
     })
 }
 
@@ -255,7 +276,7 @@ pub fn arb_vrf_case(max: usize) -> impl Strategy<Value = Case> {
         3 => (0u8..N_NH, any::<bool>()).prop_map(|(nh, reachable)| TmOp::NhReach { nh, reachable }),
         2 => (0u8..N_PEERS, 0u8..3, 0u8..2, 0u8..6, 0u8..N_NH).prop_map(|(peer, prefix, path_id, attrs, nh)| TmOp::Insert { peer, prefix, path_id, attrs, nh }),
     ];
-    proptest::collection::vec(op.prop_map(|op| Step { op, nested: None }), 1..max).prop_map(|steps| Case { steps })
+    proptest::collection::vec(op.prop_map(|op| Step { op, nested: None }), 1..max).prop_map(|steps| Case { steps, limit: None })
 }
 
 pub const VRF_RULE: &str = "fib-vrf-histories: the same over VPNv4 prefixes (one route distinguisher per prefix) whose paths carry the route targets {1}, {2}, {1,2} or none, with three VRFs configured: a (kernel table 10, imports RT 1), b (table 20, imports RT 1 and 2), c (no kernel table, imports RT 2). Expected after every step: the VPN prefix itself in the main table as before, and the prefix without its route distinguisher in the table of exactly those VRFs one of whose import route targets the current best path carries, with the same next-hop set. non-trivial := as above";
@@ -264,7 +285,7 @@ pub fn run(r: &Run) {
     r.set_rule(RULE);
     r.assume("the rig's import policies do not rewrite next hops, so the next hop shown by iter_reach is the registered one; VRF (VPN) FIB distribution is not generated");
     r.assume("the expected FIB uses the repository's ranking of the final state (collect_loc_rib_paths, judged by C02) and an own computation of which ranked paths tie with the best before the identifier comparison (tie_key); what is decided here is that the request stream keeps up with it");
-    r.prop("fib-histories", r.tier.pick(150_000, 3_000_000), || arb_case(r.tier.pick(20, 40)), check);
+    r.prop("fib-histories", r.tier.pick(150_000, 3_000_000), || arb_case_limits(r.tier.pick(20, 40)), check);
     r.assume(VRF_RULE);
     r.prop("fib-vrf-histories", r.tier.pick(60_000, 1_500_000), || arb_vrf_case(r.tier.pick(16, 32)), check_vrf);
 }
